@@ -195,7 +195,7 @@ def defectsD : FieldDecl → List String
   | .setOf _ item _ =>
     if isSetScalarOk item then []
     else if isEnumDecl item then defectsD item
-    else if isClassRef item then "none-attribute-hash:set-of-structures" :: defectsD item
+    else if isClassRef item then "set-of-structures:unproved" :: defectsD item
     else if isNoneF item then ["set-of-none:unproved"]
     else ["ineligible-shape"]
   | .setAny _ _ => ["ineligible-shape"]
